@@ -1,14 +1,19 @@
 """HIST engine with every op family mixed in."""
-from .hist import MIX
+from .hist import FAMILY, MIX
 from .hist_arith import HistArith
+from .hist_sat import HistSat
 
 _ARITH_MIX = {'new': 3, 'add_gate': 5, 'gadget': 22, 'copy': 1, 'rename': 1, 'connect': 2, 'mark_output': 1,
               'into_bench': 1, 'remove_gate': 1, 'replace_inputs': 1, 'set_outputs': 1}
 for _p in ('C07', 'C08', 'C09'):
     MIX[_p] = dict(_ARITH_MIX)
+MIX['C05'] = {'new': 4, 'add_gate': 7, 'rename': 1, 'connect': 2, 'into_bench': 1, 'replace_inputs': 1, 'mark_output': 2,
+              'set_outputs': 2, 'tseytin': 12, 'circuit_sat': 8}
+MIX['C13'] = {'new': 5, 'add_gate': 6, 'rename': 1, 'connect': 1, 'copy': 1, 'mark_output': 2, 'set_outputs': 2, 'miter': 12}
+FAMILY.update({'tseytin': 'C05', 'circuit_sat': 'C05', 'miter': 'C13', 'gadget': None})
 
 
-class HistAll(HistArith):
+class HistAll(HistArith, HistSat):
     def gen(self, rng, prop, tier, run_index):
         run = super().gen(rng, prop, tier, run_index)
         if prop in ('C07', 'C08', 'C09'):
